@@ -460,7 +460,7 @@ def _rerun_cases(tier, seed):
             d = [m for m in members(shape, tier, seed) if m["fam"] == fam][0]
             for holder in PLAIN_HOLDERS:
                 for alg in ALGS:
-                    for edit in ("fill_empty", "bump", "clear"):
+                    for edit in ("fill_empty", "bump", "clear", "move"):
                         yield {"check": "rerun", "data": d, "holder": holder, "alg": alg, "edit": edit, "gseed": seed}
 
 
@@ -493,10 +493,18 @@ def _run_rerun(case, ctx):
         cell, val = zeros[0], 4.0
     elif case["edit"] == "bump":
         cell, val = nonz[-1], float(a[nonz[-1]] + 3.0)
+    elif case["edit"] == "move":
+        # one count moved to a cell that held none: shape and number of stored entries stay, their positions change
+        if not zeros or not nonz:
+            ctx.inadm()
+            return
+        cell, val = zeros[0], 4.0
     else:
         cell, val = nonz[0], 0.0
     b = a.copy()
     b[cell] = val
+    if case["edit"] == "move":
+        b[nonz[0]] = 0.0
     ctx.state()
 
     def attempt(f):
@@ -509,6 +517,8 @@ def _run_rerun(case, ctx):
     ctx.tick()
     first, e1 = attempt(lambda: _rerun_fit(X, alg, shape, case.get("gseed", 0)))
     X[cell] = val
+    if case["edit"] == "move":
+        X[nonz[0]] = 0.0
     ctx.tick()
     got, eg = attempt(lambda: _rerun_fit(X, alg, shape, case.get("gseed", 0)))
     ctx.tick()
